@@ -200,6 +200,8 @@ class MerchantEngine:
                 if match:
                     lhs, rhs = match.groups()
                     try:
+                        # Validate now so a typo is reported with its line number
+                        expr_parser.parse_expression(rhs)
                         if lhs.startswith('field.'):
                             # Field transform: field.description = regex_replace(...)
                             self.transforms.append((lhs, rhs))
@@ -288,11 +290,15 @@ class MerchantEngine:
                     )
                 continue
 
-            # If we get here and have a current rule, it might be an error
+            # Anything else is not part of the format - never drop it silently
             if current_rule is not None:
                 raise MerchantParseError(
                     f"Unexpected content in rule", line_num, line
                 )
+            raise MerchantParseError(
+                f"Unexpected content outside of a rule (expected [Rule Name] or name = expression)",
+                line_num, line
+            )
 
         # Save final rule
         if current_rule:
@@ -337,6 +343,18 @@ class MerchantEngine:
                     f"Invalid field expression '{field_name}' in '{rule_data['name']}': {e}",
                     line_number
                 )
+
+        # Pre-parse dynamic {expression} tags for validation
+        for tag in rule_data.get('tags', ()):
+            tag = tag.strip()
+            if tag.startswith('{') and tag.endswith('}') and tag[1:-1].strip():
+                try:
+                    expr_parser.parse_expression(tag[1:-1].strip())
+                except expr_parser.ExpressionError as e:
+                    raise MerchantParseError(
+                        f"Invalid tag expression '{tag}' in '{rule_data['name']}': {e}",
+                        line_number
+                    )
 
         # Pre-parse the match expression for validation
         try:
